@@ -253,7 +253,10 @@ def run(ctx):
                 if errs:
                     res.violation("declared-default-invalid-for-its-own-keyword", {"part": "defaults", "slot": f"{o}.{k}", "default": p.default},
                                   errs[0].message[:200], None)
-            for v in [None] + vocab.version_bounds():
+            vb = vocab.version_bounds()
+            # the bounds themselves, one version strictly inside every interval between two neighbouring bounds, one above the last
+            mids = [round((a + b) / 2, 2) for a, b in zip(vb, vb[1:])] + [round(vb[-1] + 0.3, 2)]
+            for v in [None] + vb + mids:
                 case = {"part": "create", "type": o, "version": v}
                 res.count("create_cycles")
                 try:
